@@ -30,7 +30,10 @@ THEOREMS = ["Pfl.RecDescent.rdMatch_of_derives",
             "Pfl.CFG.rightmostD_valid",
             "Pfl.CFG.cfgMem_iff",
             "Pfl.CFG.toNormalForm_lang",
-            "Pfl.CFG.llParse_valid"]
+            "Pfl.CFG.llParse_valid",
+            "Pfl.CFG.cykTree_valid",
+            "Pfl.CFG.cykTree_isSome_iff",
+            "Pfl.CFG.cnfParseTree_valid"]
 
 
 def generate(rng, tier):
